@@ -1368,6 +1368,7 @@ namespace occa {
       if (!(nextKeyword.type() & keywordType::while_)) {
         tokenContext.printError("Expected [while] condition after [do]");
         success = false;
+        smntContext.popUp();
         delete &whileSmnt;
         return NULL;
       }
@@ -1399,6 +1400,9 @@ namespace occa {
         return NULL;
       }
       ++tokenContext;
+
+      // The statements after the loop belong to the enclosing block again
+      smntContext.popUp();
 
       return &whileSmnt;
     }
